@@ -44,13 +44,13 @@ func implC11(line string) string {
 	return "bad-op"
 }
 
-// implParse runs JSON.parse(text).  The property order of a parsed object comes out of a Go map,
-// so the call is repeated: if the renderings differ only in key order the answer is
+// implParse runs JSON.parse(text).  When an object has two or more properties the call is repeated
+// (the order once came out of a Go map): if the renderings differ only in key order the answer is
 // "unord:<keys sorted>", if every run agrees it is "det:<rendering>".
 func implParse(b *vmBox, tt string) string {
 	text := strVal(unitsOf(strings.TrimPrefix(tt, "t:")))
 	first := ""
-	for run := 0; run < 600; run++ {
+	for run := 0; run < 8; run++ {
 		v, err := b.parse.Call(otto.UndefinedValue(), text)
 		if err != nil {
 			return errTok(err)
@@ -80,7 +80,7 @@ func implParse(b *vmBox, tt string) string {
 func nodeOfTokSorted(b *vmBox, text otto.Value, sb *strings.Builder) {}
 
 // implRevive runs JSON.parse(text, reviver) with a logging reviver.  One run when no parsed object
-// has two or more properties; otherwise 60 runs: "nondet" if the outcomes differ beyond key order
+// has two or more properties; otherwise 8 runs: "nondet" if the outcomes differ beyond key order
 // (keys sorted, log sorted), "unord:<canonical>" if they differ in order only.
 func implRevive(b *vmBox, tt string, id int) string {
 	text := strVal(unitsOf(strings.TrimPrefix(tt, "t:")))
@@ -93,7 +93,7 @@ func implRevive(b *vmBox, tt string, id int) string {
 	lastRaw, lastCanon := "", ""
 	runs := 1
 	if multi {
-		runs = 60
+		runs = 8
 	}
 	for run := 0; run < runs; run++ {
 		logObj, err := b.vm.Object(`[]`)
